@@ -46,7 +46,32 @@ def cross_cond(rng, doc):
     return cross_leaf(rng, doc)
 
 
+def many_matches_arg(rng, doc):
+    """a path argument with a multiplicity modifier whose fan-out part matches SEVERAL nodes of the document (or none):
+    .single() then cannot give one value - the node under test fails, nothing raises"""
+    conts = []
+
+    def walk(x, pth, depth):
+        if isinstance(x, (dict, list)) and depth < 4:
+            if len(x) >= 2 and all(isinstance(k, (str, int, float, bool)) for k in pth):
+                conts.append((pth, x))
+            for k, v in (x.items() if isinstance(x, dict) else enumerate(x)):
+                walk(v, pth + [k], depth + 1)
+    walk(doc, [], 0)
+    if not conts or PARTS_GEN[0] is not None:
+        return None
+    pth, node = rng.choice(conts)
+    fan = {"rk": rng.choice(["map", "mol"]) if isinstance(node, dict) else rng.choice(["list", "mol"]),
+           "key": None, "index": None, "value": None, "cond": None, "label": None}
+    return PathArg([("prim", k) for k in pth] + [fan], rng.choice(["none", "none", "length"]), rng.choice(["single", "single", "first", "last", "all"]))
+
+
 def cross_leaf(rng, doc):
+    if rng.random() < 0.07:
+        pm = many_matches_arg(rng, doc)
+        if pm is not None:
+            return ("leaf", {"datum": "value", "pre": "none", "fn": rng.choice(["equal_to", "not_equal_to", "in_", "less_than"]),
+                             "actuals": [pm], "akw": {}})
     L = lambda fn, pre, acts, akw=None: ("leaf", {"datum": "value", "pre": pre, "fn": fn, "actuals": acts, "akw": akw or {}})
     p = path_arg(rng, doc)
     r = rng.random()
